@@ -103,6 +103,28 @@ class Scen:
                 f"[{colls}] [{pre}] [{'; '.join(map(str, self.f1))}] [{fp}] {self.fuel} [{hist}]")
 
 
+def scen_coq_b(self, laddr, uaddr):
+    """Level B: mkbs (scenario without history) wp [programs by thread id]"""
+    saved = self.hist
+    self.hist = []
+    base = self.coq(laddr, uaddr)
+    self.hist = saved
+    progs = dict(self.progs)
+    n = max(progs) + 1 if progs else 0
+    pl = "; ".join("[" + "; ".join(op_coq(o) for o in progs.get(t, [])) + "]" for t in range(n))
+    return f"mkbs ({base}) {'true' if self.sched and self.sched[0] == 'wp' else 'false'} [{pl}]"
+
+
+Scen.coq_b = scen_coq_b
+
+
+def bobs_coq(line):
+    """harness 'bobs' line -> Gallina bobs"""
+    st, evs, holds, psn = [x.strip() for x in line.split(" | ")]
+    status = {"done": "BDone", "deadlock": "BDeadlock", "selfwait": "BSelfWait"}[st]
+    return f"mkbo {status} {evs} {holds} {psn}"
+
+
 def cs_text(c):
     return {"r": f"r{c[1]}", "w": f"w{c[1]}", "panic": "panic", "probe": "probe"}[c[0]] if c[0] in ("r", "w") else c[0]
 
